@@ -31,6 +31,9 @@ ssize_t mpt_buffer_cut(MPT_STRUCT(buffer) *buf, size_t off, size_t len)
 	}
 	/* only keep data till offset */
 	if (!len) {
+		if (off > buf->_used) {
+			return MPT_ERROR(MissingData);
+		}
 		keep = off;
 	}
 	/* dat must be in range */
